@@ -13,8 +13,7 @@ global size_of usize == 8;
 //@enum file=yarel/src/scanner.rs name=TokenKind eq=1
 //@struct file=yarel/src/scanner.rs name=Token
 //@struct file=yarel/src/compiler.rs name=Attribute
-#[verifier::external_body]
-fn token_clone(t: &Token) -> (r: Token) ensures r == *t { unimplemented!() }
+impl Clone for Token { #[verifier::external_body] fn clone(&self) -> (r: Self) ensures r == *self { unimplemented!() } }
 #[verifier::external_body]
 fn string_clone(s: &String) -> (r: String) ensures r@ == s@ { unimplemented!() }
 #[verifier::external_body]
@@ -65,8 +64,6 @@ impl Parser {
 
     // one attribute: NAME or NAME(ARG, …)
     //@fn file=yarel/src/compiler.rs path=Parser::attribute ret=r props=C03,C07
-    //@  substx "let name = $1.clone();" => "let name = token_clone(&$1);"
-    //@  substx "arguments.push($1.clone());" => "arguments.push(token_clone(&$1));"
     //@  subst "let mut arguments = Vec::new();" => "let mut arguments: Vec<Token> = Vec::new();"
     //@  ensures old(self).quiet(final(self))
     //@  ensures @an_attribute_is_named_by_the_identifier_it_starts_with r matches Some(a) ==> a.name == old(self).current && a.name.kind == TokenKind::Identifier
@@ -81,7 +78,6 @@ impl Parser {
     // #[ A, B, … ]
     //@fn file=yarel/src/compiler.rs path=Parser::attributes_declaration props=C03,C07
     //@  rewrite R13
-    //@  substx "let opener = $1.clone();" => "let opener = token_clone(&$1);"
     //@  subst "HashMap::new()" => "AttrMap::new()"
     //@  subst "attribute.name.source.clone()" => "string_clone(&attribute.name.source)"
     //@  ensures old(self).had_error ==> final(self).had_error, final(self).toks_left <= old(self).toks_left
